@@ -17,4 +17,12 @@ func facts() {
 	sfKeys("proxy", []string{"C16"}, "internal/proxy/providers/singleflight_middleware.go")
 	sfKeys("auth", []string{"C16"}, "internal/auth/providers/singleflight_middleware.go")
 	sfDoKey([]string{"C16"}, "internal/proxy/providers/singleflight_middleware.go", "internal/auth/providers/singleflight_middleware.go")
+
+	fc := "internal/pkg/groups/fillcache.go"
+	skeletonFact("skel_fillcache_Update", []string{"C17"}, fc, "FillCache", "Update")
+	skeletonFact("skel_fillcache_RefreshLoop", []string{"C17"}, fc, "FillCache", "RefreshLoop")
+	skeletonFact("skel_fillcache_Get", []string{"C17"}, fc, "FillCache", "Get")
+	skeletonFact("skel_groupcache_ValidateGroupMembership", []string{"C17"}, "internal/auth/providers/group_cache.go", "GroupCache", "ValidateGroupMembership")
+	skeletonFact("skel_google_ValidateGroupMembership", []string{"C17"}, "internal/auth/providers/google.go", "GoogleProvider", "ValidateGroupMembership")
+	skeletonFact("skel_cognito_ValidateGroupMembership", []string{"C17"}, "internal/auth/providers/amazon_cognito.go", "AmazonCognitoProvider", "ValidateGroupMembership")
 }
